@@ -25,7 +25,23 @@ def _ty(t, sp):
     return LONG[t] if sp.get("long") and t in LONG else t
 
 
+_ATTRS = None
+
+
 def render_field(f, ind, sp, path):
+    """spelling "tag": "first" / "last" writes an (orthogonal) @tag(7) attribute in front of / behind the other attributes"""
+    text = _render_field(f, ind, sp, path)
+    s = sp.get(path, {}) if isinstance(sp.get(path), dict) else {}
+    s = dict(sp.get("*", {}), **s)
+    if s.get("tag") and f["k"] not in ("inl", "match"):
+        import re
+        m = re.match(r"^(\s*)((?:@\w+\((?:'[^']*'|\"[^\"]*\"|[^)']*)\)\s+)*)(.*)$", text, re.S)
+        if m:
+            text = m.group(1) + ("@tag(7) " + m.group(2) if s["tag"] == "first" else m.group(2) + "@tag(7) ") + m.group(3)
+    return text
+
+
+def _render_field(f, ind, sp, path):
     k = f["k"]
     rep = "repeat " if f["rep"] else ""
     s = sp.get(path, {}) if isinstance(sp.get(path), dict) else {}
@@ -59,7 +75,7 @@ def render_field(f, ind, sp, path):
         # the grammar admits no attribute in front of a field of an inline object: the prefixed spelling stops here
         spin = dict(sp)
         if isinstance(sp.get("*"), dict):
-            spin["*"] = {a: b for a, b in sp["*"].items() if a != "prefixattr"}
+            spin["*"] = {a: b for a, b in sp["*"].items() if a not in ("prefixattr", "tag")}
         inner = "\n".join(render_field(g, ind + "    ", spin, path + "." + g["name"]) for g in f["fs"])
         return "%s%s%s {\n%s\n%s}%s" % (ind, rep, f["name"], inner, ind, ",")
     if k == "match":
@@ -171,6 +187,12 @@ def render_lines(prog, spelling=None, lead=0):
             first = len(lines) + 1
             text = render_field(f, "    ", sp, p["name"] + "." + f["name"])
             add(text, ("field", j, i))
+            if f["k"] == "inl":
+                # the fields of an inline object, one line each behind the header line (sites of Validate.tla: nested)
+                ln = first + 1
+                for h, g in enumerate(f["fs"], 1):
+                    sites[("nested", j, i, h)] = ln
+                    ln += render_field(g, "", sp, p["name"] + "." + f["name"] + "." + g["name"]).count("\n") + 1
             if f["k"] == "match":
                 # one line per pair (or per literal when expanded), after the header line
                 ln = first + 1
